@@ -37,6 +37,10 @@ claim("C01", "registry agreement (registered handlers vs raftApply producers); V
       "Decides C01.1-C01.5: dispatch is total and single-valued; no ambient source (clock, env, network, randomness) reachable from apply feeds anything but metrics/logs/leader-local timers, and the leader-local lock-delay table is never read from apply; write transactions open at the handler's log index; no reachable map range leaks iteration order into state or results (7 reviewed exceptions); no goroutine/channel operation in apply. One known finding (F7: netutil.IsDualStack reached from virtual-IP assignment). Equality of two stores over histories is not decided.",
       "DESIGN.md section 3 C01")
 
+claim("C02", "registry agreement between persisters (record-kind byte + encoded type) and restorers (decoded type); schema-table coverage by Snapshot readers / Restore writers; stream-order analysis of persistCE against index-row writers (max-merge only after the index records); must-flow ordering in FSM.Restore; sibling agreement between the online delete path and the restore rebuild of the secret-UUID table",
+      "Decides C02.1-C02.6: every persisted record kind has a restorer decoding the same type (27 kinds) and vice versa; each of the 36 schema tables is persisted+restored, derived-and-rebuilt, or listed; restorers that run after the index records never lower an index row; FSM.Restore swaps only after commit, under the state lock, refreshes subscriptions and abandons the old store; restore and online registration share ensureRegistrationTxn; the secret-UUID table is rebuilt completely. Equality of restored content with persisted content needs the round trip and is not decided.",
+      "DESIGN.md section 3 C02")
+
 NA_REASON = {}
 
 checks = []
